@@ -33,6 +33,7 @@ DEFAULT_PROFILE = {
     "p_calendar": 0.0,
     "logic_depth": 2,
     "p_indicator_bounds": 0.0,
+    "p_optional_operand": 0.0,
 }
 
 TASK_CONSTRAINT_KINDS = ["TaskStartAt", "TaskStartAfter", "TaskEndAt", "TaskEndBefore", "TaskPrecedence", "TasksStartSynced",
@@ -464,6 +465,8 @@ class Gen:
         for _ in range(4):
             c = self.gen_constraint(rng.choice(kinds), depth + 1)
             if c is not None:
+                if rng.random() < self.p.get("p_optional_operand", 0.0):
+                    c["optional"] = True   # its own meaning is then "applied implies relation"
                 return c
         return {"expr": self.gen_bool_expr()}
 
